@@ -158,6 +158,102 @@ fn run_history(rng: &mut Rng, vm: &mut Vm, idx: u64, residues: &mut Vec<&'static
     }
 }
 
+/// History made of transactions over the SAME world as the target (same contracts, same
+/// storage keys, same assets) but with other inputs and scripts: state that the
+/// interpreter keys by identity (input-contract set, contract-input -> output index map,
+/// storage slot cache, owner pointer, panic context, balances) can only leak into the
+/// target when both name the same things. The storage is put back to the world's before
+/// the target runs (a client that rolled the history back / dry runs), so a fresh
+/// interpreter is the reference for the target.
+fn run_related_history(rng: &mut Rng, sc: &Scenario, vm: &mut Vm, idx: u64, residues: &mut Vec<&'static str>) {
+    let deployed: Vec<fuel_types::ContractId> = sc.world.contracts.iter().map(|d| d.id).collect();
+    let n = 1 + rng.below(3);
+    for k in 0..n {
+        let mut spec = sc.spec.clone();
+        let mut tags: Vec<&'static str> = vec![];
+        // contract inputs: usually every deployed contract (a superset of the target's)
+        let mut listed = if rng.below(4) < 3 { deployed.clone() } else { spec.contracts.clone() };
+        if rng.bool() {
+            listed.reverse();
+        }
+        if listed.iter().any(|c| !sc.spec.contracts.contains(c)) {
+            tags.push("related:more-contract-inputs");
+        }
+        spec.contracts = listed.clone();
+        // input layout: fewer / other coins so that contract inputs sit where the target
+        // has coins, and the owner differs
+        match rng.below(4) {
+            0 => {
+                spec.coins.truncate(1);
+                spec.messages.clear();
+                tags.push("related:shifted-input-layout");
+            }
+            1 => {
+                for c in spec.coins.iter_mut() {
+                    c.0 = 0;
+                }
+                spec.messages.clear();
+                tags.push("related:single-owner");
+            }
+            _ => {}
+        }
+        let present: Vec<usize> = {
+            let mut v: Vec<usize> = spec.coins.iter().map(|c| c.1 % sc.world.assets.len()).collect();
+            v.sort();
+            v.dedup();
+            v
+        };
+        spec.change.retain(|a| present.contains(a));
+        let n_inputs = (spec.coins.len() + spec.messages.len() + listed.len()) as u16;
+        let first_var = (listed.len() + spec.change.len() + spec.coin_outputs.len()) as u16;
+        let env = Env {
+            contracts: listed,
+            foreign_contracts: sc.env.foreign_contracts.clone(),
+            assets: sc.world.assets.clone(),
+            blobs: sc.env.blobs.clone(),
+            variable_outputs: (0..spec.variable_outputs as u16).map(|i| first_var + i).collect(),
+            n_inputs,
+            n_outputs: first_var + spec.variable_outputs as u16,
+            n_witnesses: 2,
+        };
+        let mut w = Weights::default();
+        match rng.below(3) {
+            0 => {
+                w.storage = 45;
+                w.call = 25;
+                w.storage_rich = 300;
+                tags.push("related:storage-writes");
+            }
+            1 => {
+                w.call = 40;
+                w.money = 25;
+                w.hostile = 120;
+                tags.push("related:calls-and-transfers");
+            }
+            _ => {
+                w.storage = 25;
+                w.call = 25;
+                w.introspect = 25;
+            }
+        }
+        let ns = 4 + rng.below(14) as usize;
+        spec.script = prog::generate(rng, &env, Mode::Script, w, ns).bytes;
+        spec.gas_limit = if rng.below(5) == 0 { 500 + rng.below(5000) } else { 50_000 + rng.below(200_000) };
+        let Ok(ready) = spec.ready(&sc.world, idx * 16 + k + 0x4000_0000) else { continue };
+        *vm.as_mut() = RecStorage::new(sc.world.storage.clone());
+        let st = guarded(|| vm.transact(ready).map(|s| *s.state()));
+        match st {
+            Ok(Ok(ProgramState::Revert(_))) => tags.push("related:reverted"),
+            Ok(Ok(_)) => {
+                let panicked = vm.receipts().iter().any(|r| matches!(r, fuel_tx::Receipt::Panic { .. }));
+                tags.push(if panicked { "related:panicked" } else { "related:succeeded" });
+            }
+            _ => tags.push("related:refused"),
+        }
+        residues.extend(tags);
+    }
+}
+
 fn vm_case(cfg: &Cfg, worker: u64, idx: u64, rep: &mut Report) {
     let mut rng = Rng::derive(cfg.seed ^ (0x31 << 32), worker, idx);
     let mut w = Weights::default();
@@ -180,7 +276,12 @@ fn vm_case(cfg: &Cfg, worker: u64, idx: u64, rep: &mut Report) {
     // reuse
     let mut vm = new_vm(&sc.world);
     let mut residues = vec![];
-    run_history(&mut rng, &mut vm, idx, &mut residues);
+    if idx % 2 == 1 {
+        run_related_history(&mut rng, &sc, &mut vm, idx, &mut residues);
+        rep.count("reuse_cases_with_related_history");
+    } else {
+        run_history(&mut rng, &mut vm, idx, &mut residues);
+    }
     residues.sort();
     residues.dedup();
     let reused = transact(&sc, &mut vm, ready.clone());
@@ -295,7 +396,7 @@ pub fn run(cfg: &Cfg) -> Report {
         }
         r
     });
-    rep.rule = "target transaction T (generated script + contracts) executed on a fresh interpreter vs on an interpreter+memory that first ran a history of 1..4 other generated transactions leaving residue (big heap, deep stack, frames then panic, warm storage-slot cache, many receipts, debugger left suspended, refused transaction), storage replaced by an identical clone before T; T twice on the same instance; predicates estimated/verified with fresh vs dirty memory. Compared: program state, receipts, output tx, storage fingerprint, all 64 final registers. class = (residue kinds in the history, end state of T)".into();
+    rep.rule = "target transaction T (generated script + contracts) executed on a fresh interpreter vs on an interpreter+memory that first ran a history of 1..4 other generated transactions leaving residue (big heap, deep stack, frames then panic, warm storage-slot cache, many receipts, debugger left suspended, refused transaction), or - every second case - a history of 1..3 transactions over T's own world (same contracts, storage keys and assets; more contract inputs, shifted input layout, other owners; storage-, call- or introspection-heavy scripts that succeed, revert or panic); storage replaced by an identical clone of the world's before T; T twice on the same instance; predicates estimated/verified with fresh vs dirty memory. Compared: program state, receipts, output tx, storage fingerprint, all 64 final registers. class = (residue kinds in the history, end state of T)".into();
     rep.assume("all scenarios share the default consensus parameters, so the interpreter's parameters are those of T");
     rep.gate("reuse_cases", rep.counter("reuse_cases"), 500);
     rep.gate("predicate_reuse_cases", rep.counter("predicate_reuse_cases"), 100);
